@@ -82,6 +82,7 @@ import (
 	"fmt"
 	"math/rand"
 	"net"
+	"net/url"
 	"os"
 	"runtime"
 	"runtime/debug"
@@ -99,12 +100,14 @@ import (
 	"google.golang.org/grpc"
 	"google.golang.org/grpc/backoff"
 	"google.golang.org/grpc/codes"
+	"google.golang.org/grpc/keepalive"
 	"google.golang.org/grpc/status"
 
 	pb "go.etcd.io/etcd/api/v3/etcdserverpb"
 
 	"github.com/megaease/easegress/pkg/cluster/zzsimetcd"
 	"github.com/megaease/easegress/pkg/logger"
+	"github.com/megaease/easegress/pkg/option"
 	"verif/simkit/hdrv"
 	"verif/simkit/sim"
 	"verif/simkit/simnet"
@@ -169,6 +172,13 @@ type c19Scenario struct {
 	Init         []c19Op     `json:"init"`
 	Syncers      []c19Syncer `json:"syncers"`
 	Phases       []c19Phase  `json:"phases"`
+	// Client "real": the etcd client is created by the unmodified
+	// cluster.getClient from an option.Options value (endpoints from the options,
+	// auto-sync, dial time-out, keep-alive and cluster.max-call-send-msg-size as
+	// in production); "" = created by the harness with a bare clientv3.Config.
+	Client    string `json:"client,omitempty"`
+	Role      string `json:"role,omitempty"`        // primary | secondary (which option carries the endpoints)
+	MaxSendKB int    `json:"max_send_kb,omitempty"` // option cluster.max-call-send-msg-size in KB, 0 = the option's default (10 MB)
 }
 
 var c19Keys = []string{"/p/a", "/p/a", "/p/a", "/p/a1", "/p/b", "/p/b", "/p/c", "/p0", "/p", "/q/a"}
@@ -304,6 +314,11 @@ func c19Gen(rng *sim.Rand, tier string) interface{} {
 		s.StartUs = int64(rng.Pick(0, 0, 1, 1009, 400_003))
 		sc.Syncers = append(sc.Syncers, s)
 	}
+	if c19RealClient && rng.Bool(0.5) {
+		sc.Client = "real"
+		sc.Role = rng.PickStr("primary", "secondary")
+		sc.MaxSendKB = rng.Pick(0, 0, 48, 300)
+	}
 	np := rng.Range(1, 3)
 	for p := 0; p < np; p++ {
 		ph := c19Phase{}
@@ -417,6 +432,12 @@ func (e *c19Env) sleep(d time.Duration) {
 
 const c19Addr = "etcd:2379"
 
+// Generator switches of the later extensions (false = the generator range
+// before that extension).
+const (
+	c19RealClient = true // etcd client created by cluster.getClient from options
+)
+
 // c19Rounds: see the quiet-period loop in c19Exec.
 const c19Rounds = 30
 
@@ -431,8 +452,20 @@ type c19DbgConn struct {
 }
 
 func (c *c19DbgConn) Write(b []byte) (int, error) {
-	c.r.Eventf("%s writes %d bytes", c.side, len(b))
-	return c.Conn.Write(b)
+	n, err := c.Conn.Write(b)
+	c.r.Eventf("%s writes %d bytes -> %d %v", c.side, len(b), n, err)
+	return n, err
+}
+
+func (c *c19DbgConn) Read(b []byte) (int, error) {
+	n, err := c.Conn.Read(b)
+	c.r.Eventf("%s read -> %d %v", c.side, n, err)
+	return n, err
+}
+
+func (c *c19DbgConn) Close() error {
+	c.r.Eventf("%s closes the connection", c.side)
+	return c.Conn.Close()
 }
 
 type c19DbgLis struct {
@@ -460,7 +493,12 @@ func (e *c19Env) start() {
 	}
 	e.srv = zzsimetcd.NewServer(e.store)
 	e.srv.Hooks = e.hooks
-	e.gs = grpc.NewServer()
+	// etcd's own server options (embed defaults): pings of a client at least 5 s
+	// apart are fine (grpc's default of 5 min would answer the 1-minute pings
+	// of cluster.getClient's configuration with GOAWAY too_many_pings)
+	e.gs = grpc.NewServer(
+		grpc.KeepaliveEnforcementPolicy(keepalive.EnforcementPolicy{MinTime: 5 * time.Second, PermitWithoutStream: false}),
+		grpc.KeepaliveParams(keepalive.ServerParameters{Time: 2 * time.Hour, Timeout: 20 * time.Second}))
 	e.srv.Register(e.gs)
 	gs := e.gs
 	go gs.Serve(lis)
@@ -491,6 +529,9 @@ func (e *c19Env) unaryHook(ctx context.Context, ph zzsimetcd.Phase, method strin
 			return nil
 		}
 		r.Eventf("rpc %s arrives", method)
+		if method == "MemberList" {
+			r.Probe("client_auto_sync_member_list")
+		}
 		slept := false
 		if e.sc.LatencyUs > 0 {
 			e.sleep(time.Duration(e.sc.LatencyUs) * time.Microsecond)
@@ -731,6 +772,33 @@ func c19FPOf(v interface{}) string {
 	return "?"
 }
 
+// c19FirstReadConn lets a few (per call different) nanoseconds pass in the
+// first Read of a client connection: the keep-alive timer of the transport is
+// armed when the connection is created, the auto-sync timer of the client when
+// the dial has returned (= server preface read); both are one minute, and
+// without network delay they would expire in the same instant (README rule).
+type c19FirstReadConn struct {
+	net.Conn
+	env  *c19Env
+	done bool
+}
+
+func (c *c19FirstReadConn) Read(b []byte) (int, error) {
+	if !c.done {
+		c.done = true
+		c.env.sleep(0)
+	}
+	return c.Conn.Read(b)
+}
+
+type c19NullSink struct{}
+
+func (c19NullSink) Write(b []byte) (int, error) { return len(b), nil }
+func (c19NullSink) Sync() error                 { return nil }
+func (c19NullSink) Close() error                { return nil }
+
+var c19SinkOnce sync.Once
+
 // ---- executor ---------------------------------------------------------------------------
 
 func c19Exec(r *sim.Run, sci interface{}) {
@@ -771,32 +839,94 @@ func c19Exec(r *sim.Run, sci interface{}) {
 		StreamOpen: func(ctx context.Context, method string) error { r.Yield("etcd.stream"); return nil }}
 	env.start()
 
-	cli, err := clientv3.New(clientv3.Config{
-		Endpoints: []string{c19Addr},
-		Logger:    zap.NewNop(),
-		DialOptions: []grpc.DialOption{grpc.WithContextDialer(func(ctx context.Context, addr string) (net.Conn, error) {
-			c, err := n.Dial(ctx, "tcp", addr)
-			if err == nil && c19DebugIO {
-				c = &c19DbgConn{Conn: c, r: r, side: "client"}
-			}
-			return c, err
-		}),
-			// gRPC's default reconnect back-off (1s * 1.6^n, max 120s) without its
-			// jitter, which is drawn from a generator seeded with the wall clock
-			grpc.WithConnectParams(grpc.ConnectParams{Backoff: backoff.Config{BaseDelay: time.Second, Multiplier: 1.6, Jitter: 0, MaxDelay: 120 * time.Second}, MinConnectTimeout: 20 * time.Second})},
-	})
-	if err != nil {
-		r.Violate("C19.harness", "clientv3.New: %v", err)
-		return
-	}
+	dialOpts := []grpc.DialOption{grpc.WithContextDialer(func(ctx context.Context, addr string) (net.Conn, error) {
+		c, err := n.Dial(ctx, "tcp", addr)
+		if err == nil && c19DebugIO {
+			c = &c19DbgConn{Conn: c, r: r, side: "client"}
+		}
+		if err == nil && sc.Client == "real" {
+			c = &c19FirstReadConn{Conn: c, env: env}
+		}
+		return c, err
+	}),
+		// gRPC's default reconnect back-off (1s * 1.6^n, max 120s) without its
+		// jitter, which is drawn from a generator seeded with the wall clock
+		grpc.WithConnectParams(grpc.ConnectParams{Backoff: backoff.Config{BaseDelay: time.Second, Multiplier: 1.6, Jitter: 0, MaxDelay: 120 * time.Second}, MinConnectTimeout: 20 * time.Second})}
 	reqTimeout := time.Duration(sc.ReqTimeoutMs) * time.Millisecond
-	cl := &cluster{requestTimeout: reqTimeout, client: cli, done: make(chan struct{})}
+	cl := &cluster{requestTimeout: reqTimeout, done: make(chan struct{})}
+	if sc.Client == "real" {
+		// the client is created by cluster.getClient itself (first use), from
+		// options; the only harness ingredients are the dial options above (added
+		// through the hook variable of the overlaid clientv3/client.go) and a
+		// discarding sink for the client's log file
+		c19SinkOnce.Do(func() {
+			zap.RegisterSink("c19null", func(*url.URL) (zap.Sink, error) { return c19NullSink{}, nil })
+		})
+		opt := &option.Options{AbsLogDir: "c19null://x"}
+		if sc.Role == "secondary" {
+			opt.ClusterRole = "secondary"
+			opt.Cluster.PrimaryListenPeerURLs = []string{"http://" + c19Addr}
+		} else {
+			opt.ClusterRole = "primary"
+			opt.Cluster.InitialCluster = map[string]string{"member-1": "http://" + c19Addr}
+		}
+		opt.Cluster.MaxCallSendMsgSize = 10 * 1024 * 1024 // the option's default
+		if sc.MaxSendKB > 0 {
+			opt.Cluster.MaxCallSendMsgSize = sc.MaxSendKB * 1024
+		}
+		cl.opt = opt
+		clientv3.SimExtraDialOptions = dialOpts
+		defer func() { clientv3.SimExtraDialOptions = nil }()
+		// the client's auto-sync timer (1 minute) is armed now: not at a round
+		// instant (a scheduler stall that starts at instant 0 ends at a round
+		// instant, and so would every tick of a ticker created right after it)
+		time.Sleep(173 * time.Nanosecond)
+		// as in production (cluster.getReady) the client exists before anybody
+		// asks for a syncer; the server is up at this point
+		if _, err := cl.getClient(); err != nil {
+			r.Violate("C19.harness", "cluster.getClient: %v", err)
+			env.stop()
+			env.store.Close()
+			n.Shutdown()
+			return
+		}
+		r.Probe("client_created_by_cluster_getClient")
+	} else {
+		cli, err := clientv3.New(clientv3.Config{
+			Endpoints:   []string{c19Addr},
+			Logger:      zap.NewNop(),
+			DialOptions: dialOpts,
+		})
+		if err != nil {
+			r.Violate("C19.harness", "clientv3.New: %v", err)
+			return
+		}
+		cl.client = cli
+	}
 	if lg, err := env.store.LeaseGrant(&pb.LeaseGrantRequest{TTL: 3600 * 24 * 365}); err == nil {
 		id := clientv3.LeaseID(lg.ID)
 		cl.lease = &id
 	}
 
-	apply := func(who string, op c19Op) {
+	// Every writer task calls the cluster API through its own cluster value
+	// (same etcd client, same lease) whose request time-out is a few nanoseconds
+	// longer than the syncer's: tasks released by the scheduler in the same
+	// virtual instant (after a stall) otherwise start RPCs whose context
+	// deadlines expire in the same instant, and while the server is unreachable
+	// the order in which those two timers fire decided whether a write failed
+	// with Unavailable or was transparently retried by gRPC (seen as 3 of 1500
+	// seeds with different trace hashes).
+	apiClusters := map[string]*cluster{}
+	apiCluster := func(who string, slot int) *cluster {
+		if c := apiClusters[who]; c != nil {
+			return c
+		}
+		c := &cluster{requestTimeout: reqTimeout + time.Duration(3+2*slot), client: cl.client, lease: cl.lease, done: cl.done, opt: cl.opt}
+		apiClusters[who] = c
+		return c
+	}
+	apply := func(who string, slot int, op c19Op) {
+		cl := apiCluster(who, slot)
 		via := op.Via
 		if via != "api" {
 			via = "direct"
@@ -859,6 +989,9 @@ func c19Exec(r *sim.Run, sci interface{}) {
 		res := "ok"
 		if err != nil {
 			res = "err:" + status.Code(err).String()
+			if c19DebugIO {
+				res += " (" + err.Error() + ")"
+			}
 		}
 		if via == "api" && who != "init" {
 			// calls that end at the same instant (same deadline) return in an
@@ -898,7 +1031,7 @@ func c19Exec(r *sim.Run, sci interface{}) {
 	}
 	for _, op := range sc.Init {
 		op.Via = "direct"
-		apply("init", op)
+		apply("init", 0, op)
 	}
 
 	// ---- syncers and consumers
@@ -920,7 +1053,7 @@ func c19Exec(r *sim.Run, sci interface{}) {
 		syncs = append(syncs, s)
 	}
 	if len(syncs) == 0 {
-		cli.Close()
+		cl.closeClient()
 		env.stop()
 		env.store.Close()
 		n.Shutdown()
@@ -943,6 +1076,11 @@ func c19Exec(r *sim.Run, sci interface{}) {
 				return
 			}
 			s.syncer = sy
+			// the pull ticker is armed at the instant Sync* is called: give that
+			// instant its own sub-microsecond offset (this task may just have been
+			// released at the end of a scheduler stall, i.e. at an instant that is a
+			// round duration after the one in which another timer was armed)
+			time.Sleep(time.Duration(557 + 29*s.idx))
 			s.startRev = env.store.Rev()
 			one := func(k string, kv *mvccpb.KeyValue) map[string]*mvccpb.KeyValue {
 				m := map[string]*mvccpb.KeyValue{}
@@ -1106,7 +1244,7 @@ func c19Exec(r *sim.Run, sci interface{}) {
 						g = 0
 					}
 					r.Sleep(time.Duration(g) * time.Microsecond)
-					apply(fmt.Sprintf("p%dw%d", pi, wi), op)
+					apply(fmt.Sprintf("p%dw%d", pi, wi), 1+pi*8+wi%8, op)
 				}
 			})
 		}
@@ -1260,7 +1398,7 @@ func c19Exec(r *sim.Run, sci interface{}) {
 	if !aborted {
 		r.WaitTasks()
 	}
-	cli.Close()
+	cl.closeClient()
 	env.stop()
 	env.store.Close()
 	n.Shutdown()
@@ -1463,7 +1601,7 @@ func TestC19DebugDeterminism(t *testing.T) {
 					}
 				}
 			}
-			b, _ := json.Marshal(map[string]interface{}{"seed": sd, "syncers": len(sc.Syncers), "netdelay": len(sc.NetDelayUs), "latency": sc.LatencyUs, "faults": kinds, "phases": len(sc.Phases), "api": api, "req": sc.ReqTimeoutMs, "pull": sc.Syncers[0].PullMs})
+			b, _ := json.Marshal(map[string]interface{}{"seed": sd, "syncers": len(sc.Syncers), "netdelay": len(sc.NetDelayUs), "latency": sc.LatencyUs, "faults": kinds, "phases": len(sc.Phases), "api": api, "req": sc.ReqTimeoutMs, "pull": sc.Syncers[0].PullMs, "client": sc.Client, "maxsend": sc.MaxSendKB})
 			fmt.Println("FEAT", string(b))
 		}
 		return
